@@ -25,6 +25,11 @@ func corpus(w *lib.Writer) {
 		runCase(w, in{Kind: "quote", S: hx(s)}) // C16-4
 	}
 	runCase(w, in{Kind: "num", Rd: 0, S: hx("1e2")}) // C16-1
+	for _, s := range []string{"\xc2\xa010", "10\xc2\x85", "\xe2\x80\x8310\xe3\x80\x80", "\xa010", "10\x85"} { // Unicode spaces are not blanks
+		runCase(w, in{Kind: "num", Rd: 0, S: hx(s)})
+		runCase(w, in{Kind: "num", Rd: 1, S: hx(s)})
+		runCase(w, in{Kind: "num", Rd: 2, S: hx(s)})
+	}
 	for _, s := range []string{"0010", "0b11", "0o17", "1_000", "inf", "nan", "0x1p4", "1e999", " 10\r", "-0x10", "0x.8p1", "1.0_0", "Infinity", "+inf", "NaN"} {
 		runCase(w, in{Kind: "num", Rd: 0, S: hx(s)}) // C16-2, C16-3
 		runCase(w, in{Kind: "num", Rd: 1, S: hx(s)})
@@ -385,6 +390,36 @@ func genNumerals(w *lib.Writer, r *lib.Rand, tier string) {
 		"123456789012345678901234567890", "0x10000000000000000", "0xfffffffffffff800", "0xfffffffffffffc00", "0x1fffffffffffff", "0x20000000000001",
 		"-0", "+0", "-0x0", "00", "000.000", "1e0000000000000000000001", "1e99999999999999999999", "1e-99999999999999999999", "0e99999999999999999999", "1.e1", "0x", "0xx1", "00x1", "1x1", "0x1e+1", "0x1e"} {
 		numCases(w, []byte(s))
+	}
+	// confusable blanks: numerals and near-numerals wrapped in every single byte outside the
+	// printable range and in the UTF-8 encodings of Unicode spaces / BOM (Go's unicode-aware
+	// trimming would accept what C isspace does not), through all three readers
+	var pool []string
+	for b := 0; b <= 0x20; b++ {
+		pool = append(pool, string([]byte{byte(b)}))
+	}
+	for b := 0x7f; b <= 0xff; b++ {
+		pool = append(pool, string([]byte{byte(b)}))
+	}
+	pool = append(pool, "\xc2\xa0", "\xc2\x85", "\xe1\x9a\x80", "\xe2\x80\x80", "\xe2\x80\x81", "\xe2\x80\x82", "\xe2\x80\x83",
+		"\xe2\x80\x84", "\xe2\x80\x85", "\xe2\x80\x86", "\xe2\x80\x87", "\xe2\x80\x88", "\xe2\x80\x89", "\xe2\x80\x8a", "\xe2\x80\x8b",
+		"\xe2\x80\xa8", "\xe2\x80\xa9", "\xe2\x80\xaf", "\xe2\x81\x9f", "\xe3\x80\x80", "\xef\xbb\xbf", "\xe1\xa0\x8e", " \xc2\xa0", "\xe3\x80\x80 ")
+	cores := []string{"10", "0x1f", "-1.5e1", "1e", "7"}
+	for i, bl := range pool {
+		for pos := 0; pos < 3; pos++ {
+			for ci, core := range cores {
+				if tier != "thorough" && ci != (i+pos)%len(cores) {
+					continue
+				}
+				str := []string{bl + core, core + bl, bl + core + bl}[pos]
+				numCases(w, []byte(str))
+			}
+		}
+	}
+	for i, bl := range pool { // also with an explicit base, where only the trimming differs
+		if tier == "thorough" || i%4 == 0 {
+			runCase(w, in{Kind: "numb", S: hx(bl + "11" + bl), Base: 2 + i%35})
+		}
 	}
 	// structured numerals: well-formed, decorated, and mutated
 	ns := 450
